@@ -172,3 +172,145 @@ Example C07_static_nonvacuous :
      ARead 125000; ARead 150000; ATime 24 7]
   = [OVal 10; OVal 10; OVal 10; OVal 20; OVal (-1); ONone; OVal 20; OVal 20; OVal 5; OVal 20; OVal 30; OVal 29167].
 Proof. vm_compute. reflexivity. Qed.
+
+(** * The shared static objects read from SEVERAL timelines (model: Sched/StaticMulti.v, lemmas Sched/StaticMultiProofs.v) *)
+(* The same PStaticPattern / PCurrentTime / PGlobals objects - e.g. event dictionaries built once - used by tracks of
+   several Timeline objects of one process, one after the other (a second performance on a fresh timeline) or alternately.
+   Every read is served with the position of the timeline whose tick makes it. *)
+From Isobar Require Import Sched.StaticMulti Sched.StaticMultiProofs.
+
+(* PCurrentTime reports the position of THE READER's timeline: for every program over any number of timelines, the values
+   shown to the tracks of timeline k are k's own positions (start + its own ticks so far, rounded to 10^-5 beat), whatever the
+   other timelines did meanwhile and whichever timeline read the object before; they are the [time_outs] of the run *)
+Theorem C07_time_of_reader : forall k p tls s g, (k < length tls)%nat ->
+  time_outs k p (run_multi tls s g p) = map OVal (times_of k tls p)
+  /\ times_of k tls p = map (r5 (m_U (nth_tl k tls))) (tick_counts k p (m_pos (nth_tl k tls)))
+  /\ times_of k tls (filter (on_tl k) p) = times_of k tls p.
+Proof.
+  intros k p tls s g L. split; [apply run_multi_times|]. split; [apply times_are_own_positions; exact L|apply times_projection; exact L].
+Qed.
+
+(* a program over several timelines is a program of Sched/Static.v in which every read carries its reader's position:
+   C07_static_hold / _same_time / _kept / _advances / C07_globals_* hold for it as they stand; with one timeline it is the
+   old semantics *)
+Theorem C07_multi_is_static_program : forall p tls s g,
+  drop_ticks p (run_multi tls s g p) = run_prog s g (linearize tls p).
+Proof. exact multi_linear. Qed.
+Theorem C07_multi_single : forall p U t, forallb only_tl0 p = true -> linearize [mkMtl U t] p = single U t p.
+Proof. exact multi_single. Qed.
+
+(* a second performance starts from exactly what the first one left: the state of the pattern, the globals, and each
+   timeline's own position - nothing else is carried over *)
+Theorem C07_second_run : forall p1 p2 tls s g,
+  run_multi tls s g (p1 ++ p2)
+  = run_multi tls s g p1 ++ run_multi (tls_after tls p1) (static_after tls s p1) (globals_after g p1) p2.
+Proof. exact run_multi_app. Qed.
+
+(* the value a static pattern holds - since whenever, set by whichever timeline - is shown unchanged to every reader of every
+   timeline whose OWN position is before the end of the span, however often it is read; and two readers whose timelines are at
+   the same position see the same value *)
+Theorem C07_carried_value_held : forall p tls s g st v, sv_start s = Some st -> sv_value s = Some v ->
+  Forall (fun now => now - st < sv_dur s) (read_positions tls p) ->
+  read_outs p (run_multi tls s g p) = repeat (OVal v) (length (read_positions tls p)) /\ static_after tls s p = s.
+Proof. exact carried_value_held. Qed.
+Theorem C07_same_position_same_value : forall j k tls s g v,
+  Forall (fun d => 0 < d) (sv_durs s) -> pos5 j tls = pos5 k tls ->
+  nth 0 (run_multi tls s g [MRead j; MRead k]) ONone = OVal v -> nth 1 (run_multi tls s g [MRead j; MRead k]) ONone = OVal v.
+Proof. exact same_position_same_value. Qed.
+
+(* non-vacuity: values 10, 20, 30 held for 1/2 beat; timeline 0 (4 ticks per beat) plays three ticks and reads the pattern and the
+   time; then timeline 1 (8 ticks per beat), fresh, is played with the SAME objects: its first time read is 0 (not 0.75), the
+   value 20 (started at 0.5 on timeline 0's clock) is shown until timeline 1 itself reaches 0.5 + 0.5 = 1.0 beat *)
+Example C07_two_timelines_nonvacuous :
+  let p1 := [MRead 0; MTime 0; MTick 0; MTick 0; MRead 0; MTime 0; MTick 0; MTime 0]%nat in
+  let p2 := [MTime 1; MRead 1; MTick 1; MTick 1; MTick 1; MTick 1; MTime 1; MRead 1; MTick 1; MTick 1; MTick 1; MTick 1; MRead 1; MTime 1; MTime 0]%nat in
+  let tls := [mtl0 4; mtl0 8] in
+  run_multi tls (static0 [10; 20; 30] true [50000]) [] (p1 ++ p2)
+  = [OVal 10; OVal 0; ONone; ONone; OVal 20; OVal 50000; ONone; OVal 75000]
+    ++ [OVal 0; OVal 20; ONone; ONone; ONone; ONone; OVal 50000; OVal 20; ONone; ONone; ONone; ONone; OVal 30; OVal 100000; OVal 75000]
+  /\ times_of 1 tls (p1 ++ p2) = [0; 50000; 100000]
+  /\ tick_counts 1 (p1 ++ p2) 0 = [0; 4; 8].
+Proof. vm_compute. repeat split. Qed.
+
+(** * The track list changes DURING the track phase (lemmas: Sched/MergeCbProofs.v) *)
+(* Action events whose callbacks unschedule / mute / update / nudge another track, stop their own track, or schedule a new
+   track - on ticks on which the neighbours have events due.  The model is Sched/Model.v as it stands ([tick_one] runs the
+   callback's operations on the timeline in the middle of [phase_tracks]). *)
+From Isobar Require Import Sched.MergeCbProofs.
+
+(* snapshot semantics, for EVERY configuration and state: only the ids present when the phase starts take a turn (a track
+   scheduled by a callback does not play in the tick that created it); when the tick runs through EVERY one of them has
+   taken its turn, in order, whatever the earlier turns did to the track list (nobody is skipped because a neighbour left or
+   arrived); a track that an earlier turn removed makes no call and is not touched *)
+Theorem C07_snapshot_only : forall cfg ids tl id, In id (map fst (track_turns cfg tl ids)) -> In id ids.
+Proof. exact turns_within_snapshot. Qed.
+Theorem C07_snapshot_all : forall cfg ids tl c, snd (phase_tracks cfg tl ids c) = ROk -> map fst (track_turns cfg tl ids) = ids.
+Proof. exact turns_cover_snapshot. Qed.
+Theorem C07_snapshot_removed : forall cfg tl id, find_track id (tracks tl) = None -> tick_one cfg tl id = (tl, [], None).
+Proof. exact turn_of_removed. Qed.
+
+(* THE MERGE THEOREM WITH CALLBACKS THAT PERFORM TIMELINE OPERATIONS.  As C07_merge, with [cb_noops] replaced by
+   [cbs_wf] (inside [uncoupled_cb]): the callbacks owned by the observed track i perform only operations aimed at i
+   (stop / mute / unmute / nudge / update of i - they happen in the solo run too), every other callback performs only
+   operations aimed at other tracks (unschedule / mute / unmute / nudge / update of tracks other than i, unnamed schedule
+   calls with streams outside i's channels).  [ticks_wf]: a callback schedules a track only on ticks after i got its id
+   (ids are the model's names for object identities).  Then for ALL such histories - any number of tracks, any ticks on
+   which the track list shrinks or grows in the middle of the phase, before or after i's position - tick by tick the calls
+   owned by i in the joint run ARE the calls of its solo run, the states are related by [sim], no solo tick is aborted. *)
+Theorem C07_merge_cb : forall i pc pb cfg h,
+  uncoupled_cb i pc pb cfg = true -> hist_wf i pc pb 0 h = true -> ticks_wf i cfg 0 h = true -> all_ticks_ok cfg tl0 h = true ->
+  tick_calls cfg (tl_at i) (solo i 0 h) = map (filter (call_ok pc pb)) (tick_calls cfg tl0 h)
+  /\ sim i pc pb (run_state cfg tl0 h) (run_state cfg (tl_at i) (solo i 0 h))
+  /\ all_ticks_ok cfg (tl_at i) (solo i 0 h) = true.
+Proof. exact merge_cb_from_empty. Qed.
+
+(* one tick from any pair of related states: the simulation survives a tick in which foreign callbacks change the track list *)
+Theorem C07_merge_cb_tick : forall i pc pb cfg J S,
+  dev_fail cfg = None -> stop_when_done cfg = false -> max_tracks cfg = 0 -> (forall cb, cb_wf i pc pb cfg cb = true) ->
+  sim i pc pb J S -> nid_rel i J S -> ((i < next_id J)%nat \/ cb_sched_free cfg = true) ->
+  let '(J', cJ, rJ) := tl_tick cfg J in
+  let '(S', cS, rS) := tl_tick cfg S in
+  rJ = ROk -> rS = ROk /\ sim i pc pb J' S' /\ cS = filter (call_ok pc pb) cJ.
+Proof.
+  intros i pc pb cfg J S D W M C H N K. pose proof (tl_tick_sim' i pc pb cfg D W M C J S H (conj N K)) as T.
+  destruct (tl_tick cfg J) as [[J' cJ] rJ]. destruct (tl_tick cfg S) as [[S' cS] rS]. intros R.
+  destruct (T R) as [T1 [T2 [T3 _]]]. auto.
+Qed.
+
+(* C07_merge's hypothesis is the special case *)
+Theorem C07_merge_cb_generalises : forall i pc pb cfg, uncoupled cfg = true -> uncoupled_cb i pc pb cfg = true /\ cb_sched_free cfg = true.
+Proof.
+  unfold uncoupled, uncoupled_cb. intros i pc pb cfg U. apply andb_true_iff in U as [U U4]. apply andb_true_iff in U as [U U3].
+  apply andb_true_iff in U as [U1 U2]. destruct (cb_noops_wf i pc pb cfg U2) as [A B]. rewrite U1, A, U3, U4. split; [reflexivity|exact B].
+Qed.
+
+(* non-vacuity (tau = 1): X (id 0, channel 0) plays a note every 2 ticks; K (id 1, channel 1) calls callback 0 on tick 0, callback
+   1 on tick 2 and callback 2 on tick 4; Z (id 2, channel 2) plays every 2 ticks - it is due on every tick on which K's callbacks
+   run.  Callback 0 mutes X, callback 1 unschedules X (a track BEFORE K) and schedules a new track on channel 3, callback 2 stops K
+   itself.  Z - placed after K - is not skipped on ticks 2 and 4 and plays exactly what it plays alone; the new track (id 3) does
+   not play on tick 2 (the tick that created it) but from tick 3 on; X's sounding note is released on time by the timeline. *)
+Definition mp_cfg : config :=
+  mkConfig 1 [(CbNone, [OMute 0]);
+              (CbNone, [OSchedule (mkStream [nt 1 90 3 1] 0 true) None None (Some 2) true None true; OUnschedule 0]);
+              (CbExc, [OUnschedule 1])] 0 0 false false None 8.
+Definition act (d : Z) (cb : nat) : evres := REvent (mkEvent d true (KAction cb)).
+Definition mp_h : list op :=
+  [ OSchedule (mkStream [nt 2 60 0 4] 0 true) None None None true None true;
+    OSchedule (mkStream [act 2 0; act 2 1; act 2 2; nt 2 50 1 1] 0 false) None None None true None true;
+    OSchedule (mkStream [nt 2 70 2 1; nt 2 71 2 1] 0 true) None None None true None true;
+    OTick; OTick; OTick; OTick; OTick; OTick; OTick ].
+Example C07_merge_cb_nonvacuous :
+  uncoupled_cb 2 (on_channel 2) (one_of []) mp_cfg = true
+  /\ uncoupled mp_cfg = false
+  /\ hist_wf 2 (on_channel 2) (one_of []) 0 mp_h = true
+  /\ ticks_wf 2 mp_cfg 0 mp_h = true
+  /\ all_ticks_ok mp_cfg tl0 mp_h = true
+  /\ tick_calls mp_cfg tl0 mp_h =
+       [ [CNoteOn 60 64 0; CCallback 0; CNoteOn 70 64 2]; [CNoteOff 70 2]; [CCallback 1; CNoteOn 71 64 2];
+         [CNoteOff 71 2; CNoteOn 90 64 3]; [CNoteOff 90 3; CNoteOff 60 0; CCallback 2; CNoteOn 70 64 2; CNoteOn 90 64 3];
+         [CNoteOff 70 2; CNoteOff 90 3]; [CNoteOn 71 64 2] ]
+  /\ tick_calls mp_cfg (tl_at 2) (solo 2 0 mp_h) =
+       [ [CNoteOn 70 64 2]; [CNoteOff 70 2]; [CNoteOn 71 64 2]; [CNoteOff 71 2]; [CNoteOn 70 64 2]; [CNoteOff 70 2]; [CNoteOn 71 64 2] ]
+  /\ map (fun o => snd o) (run mp_cfg tl0 mp_h) =
+       ([ [0]; [0; 1]; [0; 1; 2]; [0; 1; 2]; [0; 1; 2]; [1; 2; 3]; [1; 2; 3]; [2; 3]; [2]; [2] ])%nat.
+Proof. vm_compute. repeat split. Qed.
